@@ -166,7 +166,11 @@ Definition get_server_identity (fix_f20 : bool) (r : registry) (c : cothority) :
   end.
 
 (* ---------- group files --------------------------------------------------------- *)
-Inductive gres := GErr | GPanic | GOk (ids : list identity) (roster : res).
+(* [GOther code] is never produced by the model: it stands for outcomes of the real
+   readers that are neither an identity error nor a panic (1 = the process died or did
+   not answer, 2 = the TOML text itself was refused), so that they are not merged
+   with the outcomes the model does produce *)
+Inductive gres := GErr | GPanic | GOther (code : nat) | GOk (ids : list identity) (roster : res).
 
 Fixpoint read_servers (fix_f20 : bool) (r : registry) (l : list server_toml) : option (option (list identity)) :=
   (* None = panic, Some None = error *)
